@@ -2847,7 +2847,13 @@ class SequenceAndSetBase(base.ConstructedAsn1Type):
             if value is noValue:
                 continue
 
-            name = self.componentType.getNameByPosition(idx)
+            if self._componentTypeLen:
+                name = self.componentType.getNameByPosition(idx)
+
+            else:
+                # no declared components: the names are made up as
+                # the components come
+                name = self._dynamicNames.getNameByPosition(idx)
 
             mapping[name] = value
 
